@@ -32,11 +32,64 @@ BASELINE_PATH = os.path.join(os.path.dirname(os.path.abspath(__file__)), 'baseli
 
 PURE_CALLS = {'math.sqrt', 'math.log', 'math.exp', 'math.pow', 'math.floor', 'math.ceil', 'float', 'int', 'abs', 'len', 'str', 'bool', 'min', 'max',
               'isinstance', 'type', 'math.isnan', 'math.isinf', 'math.isfinite', 'repr', 'tuple', 'list', 'dict', 'set', 'sorted', 'hasattr',
-              'print', 'traceback.print_exc', 'logger.log', 'logger.debug', 'logger.info', 'logger.warning', 'logger.error', 'format'}
+              'range', 'enumerate', 'zip', 'print', 'traceback.print_exc', 'logger.log', 'logger.debug', 'logger.info', 'logger.warning', 'logger.error', 'format'}
 
 
 PURE_STR_METHODS = {'find', 'rfind', 'index', 'split', 'rsplit', 'partition', 'rpartition', 'startswith', 'endswith', 'strip', 'lstrip', 'rstrip',
                     'lower', 'upper', 'count', 'isdigit'}
+
+
+OBSERVERS = set()          # method names all of whose definitions only read state (filled per run by observer_methods)
+BUILTIN_OBSERVERS = {'copy', 'keys', 'values', 'items', 'get', 'count', 'index', 'find'}
+
+
+def observer_methods(trees):
+    """names of methods / functions whose every definition has no attribute / item store, no delete, no global, and calls only
+    pure builtins, str query methods and other such methods (fixpoint)"""
+    defs = {}
+    for tree in trees.values():
+        for fn in ast.walk(tree):
+            if isinstance(fn, (ast.FunctionDef, ast.AsyncFunctionDef)):
+                defs.setdefault(fn.name, []).append(fn)
+    pure = set(defs) | BUILTIN_OBSERVERS
+    changed = True
+    while changed:
+        changed = False
+        for name, fns in defs.items():
+            if name not in pure:
+                continue
+            ok = True
+            for fn in fns:
+                if any(_txt(d) in ('abstractmethod', 'abc.abstractmethod') for d in fn.decorator_list):
+                    continue
+                for x in _walk_shallow(fn):
+                    if isinstance(x, (ast.Attribute, ast.Subscript)) and isinstance(x.ctx, (ast.Store, ast.Del)):
+                        ok = False
+                    elif isinstance(x, (ast.Global, ast.Nonlocal, ast.Yield, ast.YieldFrom, ast.Await, ast.With)):
+                        ok = False
+                    elif isinstance(x, ast.Call):
+                        f = _txt(x.func)
+                        if f in PURE_CALLS:
+                            continue
+                        if isinstance(x.func, ast.Attribute):
+                            if x.func.attr in PURE_STR_METHODS and isinstance(x.func.value, ast.Name):
+                                continue
+                            if x.func.attr in pure and x.func.attr not in ('append', 'remove', 'pop', 'clear', 'update', 'add', 'insert', 'extend', 'sort'):
+                                continue
+                        elif isinstance(x.func, ast.Name) and x.func.id in pure and x.func.id in defs:
+                            continue
+                        elif isinstance(x.func, ast.Name) and (x.func.id.endswith('Error') or x.func.id.endswith('Exception')):
+                            continue                      # constructing an exception
+                        ok = False
+                    if not ok:
+                        break
+                if not ok:
+                    break
+            if not ok:
+                pure.discard(name)
+                changed = True
+    # a builtin observer name that the program defines impurely is not an observer
+    return {n for n in pure if not (n.startswith('__') and n.endswith('__'))}
 
 
 def load_baseline():
@@ -118,7 +171,19 @@ def undo_renames(trees, base, log):
 
 def make_baseline(modules):
     """modules: name -> ast.Module ; returns the name table"""
-    out = {'__attrs__': attr_profiles(modules)}
+    out = {'__attrs__': attr_profiles(modules), '__logcalls__': {}}
+    for mname, tree in sorted(modules.items()):
+        for n in tree.body:
+            fns = []
+            if isinstance(n, (ast.FunctionDef, ast.AsyncFunctionDef)):
+                fns = [(n, None)]
+            elif isinstance(n, ast.ClassDef):
+                fns = [(m, n.name) for m in n.body if isinstance(m, (ast.FunctionDef, ast.AsyncFunctionDef))]
+            for fn, cname in fns:
+                calls = [_txt(x.value) for x in ast.walk(fn) if isinstance(x, ast.Expr) and isinstance(x.value, ast.Call)
+                         and isinstance(x.value.func, ast.Attribute) and x.value.func.attr in ('debug', 'info', 'warning', 'warn', 'error', 'critical', 'exception', 'log')]
+                if calls:
+                    out['__logcalls__'][f'{mname}:{cname}.{fn.name}' if cname else f'{mname}:{fn.name}'] = calls
     for mname, tree in sorted(modules.items()):
         ent = {'consts': [], 'funcs': {}, 'classes': {}}
         for n in tree.body:
@@ -969,7 +1034,8 @@ def inline_helpers(trees, base, log):
         refs = 0
         for tree in trees.values():
             for x in ast.walk(tree):
-                if (isinstance(x, ast.Attribute) and x.attr == name) or (isinstance(x, ast.Name) and x.id == name):
+                if (isinstance(x, ast.Attribute) and x.attr == name) or (isinstance(x, ast.Name) and x.id == name) \
+                        or (isinstance(x, ast.Constant) and x.value == name):        # e.g. listed in __all__
                     refs += 1
         if refs == 0:
             for tree in trees.values():
@@ -1009,6 +1075,10 @@ def _pure_read(e, allow_attr=True):
     if isinstance(e, ast.Call) and isinstance(e.func, ast.Attribute) and isinstance(e.func.value, ast.Name) and e.func.value.id not in ('self', 'cls') \
             and e.func.attr in PURE_STR_METHODS and not e.keywords:
         return all(_pure_read(a, allow_attr) for a in e.args)        # str / tuple query methods on a plain name
+    if isinstance(e, ast.Call) and isinstance(e.func, ast.Name) and e.func.id in PURE_CALLS and not e.keywords:
+        return all(_pure_read(a, allow_attr) for a in e.args)        # pure builtin
+    if allow_attr and isinstance(e, ast.Call) and isinstance(e.func, ast.Attribute) and e.func.attr in OBSERVERS and not e.keywords:
+        return _pure_read(e.func.value, allow_attr) and all(_pure_read(a, allow_attr) for a in e.args)    # state-reading method
     return False
 
 
@@ -1042,6 +1112,8 @@ def _stable_attr_paths(e, props, attr_rebound, item_rebound, private_locals=()):
     """every attribute read in e is a field only constructors bind (or a property returning one); items only of containers whose
     items are bound by constructors only"""
     for x in ast.walk(e):
+        if isinstance(x, ast.Call) and isinstance(x.func, ast.Attribute) and x.func.attr in OBSERVERS:
+            return False                  # the value of a state-reading call changes with the state
         if isinstance(x, ast.Subscript):
             v = x.value
             if isinstance(v, ast.Name) and v.id in private_locals:
@@ -1257,6 +1329,8 @@ def propagate_locals(trees, base, log):
                                 if isinstance(x.func, ast.Attribute) and isinstance(x.func.value, ast.Name) and x.func.value.id not in ('self', 'cls') \
                                         and x.func.attr in PURE_STR_METHODS:
                                     continue
+                                if isinstance(x.func, ast.Attribute) and x.func.attr in OBSERVERS:
+                                    continue              # a state-reading call changes nothing
                                 if isinstance(s, ast.Raise) and isinstance(x.func, ast.Name) and (f.endswith('Error') or f.endswith('Exception')):
                                     continue              # constructing the exception that is being raised
                                 # a method call on the alias itself (subscribers.append) is the aliased operation
@@ -1284,6 +1358,7 @@ def propagate_locals(trees, base, log):
                 for _i in range(3):
                     before = len(log)
                     do_fn(n, b['funcs'][n.name], f'{mname}.{n.name}')
+                    propagate_adjacent(n, b['funcs'][n.name], log, f'{mname}.{n.name}')
                     if len(log) == before:
                         break
                 sink_returns(n, set(b['funcs'][n.name]))
@@ -1296,9 +1371,86 @@ def propagate_locals(trees, base, log):
                         for _i in range(3):
                             before = len(log)
                             do_fn(m, known, f'{n.name}.{m.name}')
+                            propagate_adjacent(m, known, log, f'{n.name}.{m.name}')
                             if len(log) == before:
                                 break
                         sink_returns(m, set(known))
+
+
+def _first_leaf_is(e, name):
+    """the first thing the evaluation of e does is to load `name`"""
+    while e is not None:
+        if isinstance(e, ast.Name):
+            return e.id == name
+        if isinstance(e, (ast.Attribute, ast.Subscript, ast.Starred)):
+            e = e.value
+        elif isinstance(e, ast.BinOp):
+            e = e.left
+        elif isinstance(e, ast.Compare):
+            e = e.left
+        elif isinstance(e, ast.UnaryOp):
+            e = e.operand
+        elif isinstance(e, ast.BoolOp):
+            e = e.values[0]
+        elif isinstance(e, ast.IfExp):
+            e = e.test
+        elif isinstance(e, ast.Call):
+            if isinstance(e.func, ast.Attribute):
+                e = e.func.value
+            elif isinstance(e.func, ast.Name) and e.args and not isinstance(e.args[0], ast.Starred):
+                e = e.args[0]
+            else:
+                return False
+        else:
+            return False
+    return False
+
+
+def propagate_adjacent(fn, known_locals, log, where):
+    """`t = <any expression>` immediately followed by the only statement that reads t, which reads it before doing anything else:
+    the expression is evaluated at the same moment either way"""
+    new_locals = _locals_of(fn) - set(known_locals)
+    if not new_locals:
+        return
+    loads, stores = {}, {}
+    for n in _walk_shallow(fn):
+        if isinstance(n, ast.Name):
+            d = loads if isinstance(n.ctx, ast.Load) else stores
+            d[n.id] = d.get(n.id, 0) + 1
+
+    def block(stmts):
+        i = 0
+        while i < len(stmts):
+            st = stmts[i]
+            for field in ('body', 'orelse', 'finalbody'):
+                v = getattr(st, field, None)
+                if isinstance(v, list) and not isinstance(st, (ast.FunctionDef, ast.AsyncFunctionDef, ast.ClassDef)):
+                    block(v)
+            if isinstance(st, ast.Try):
+                for h in st.handlers:
+                    block(h.body)
+            name, val = _single_name_assign(st)
+            if name and name in new_locals and stores.get(name) == 1 and loads.get(name) == 1 and i + 1 < len(stmts):
+                nxt = stmts[i + 1]
+                own = _own_exprs(nxt)
+                target = None
+                if isinstance(nxt, (ast.Return, ast.Expr)):
+                    target = nxt.value
+                elif isinstance(nxt, (ast.Assign, ast.AnnAssign)):
+                    target = nxt.value
+                elif isinstance(nxt, (ast.If, ast.While)):
+                    target = nxt.test if isinstance(nxt, ast.If) else None
+                elif isinstance(nxt, ast.For):
+                    target = nxt.iter
+                if target is not None and own and _first_leaf_is(target, name):
+                    rep = _ReplaceLoads(lambda node, name=name, val=val: val if isinstance(node, ast.Name) and node.id == name else None)
+                    _visit_own(nxt, rep)
+                    if rep.count == 1:
+                        del stmts[i]
+                        log.append(f'N3 {where}: temporary {name} = {_txt(val)[:60]} moved into its only, adjacent use')
+                        continue
+            i += 1
+    block(fn.body)
 
 
 def _own_exprs(st, include_targets=False):
@@ -1530,6 +1682,166 @@ def match_to_if(trees, log):
                 n.body = block(n.body)
 
 
+# =================================================================================================== N6 no-op statements and conversions
+LOG_METHODS = {'debug', 'info', 'warning', 'warn', 'error', 'critical', 'exception', 'log'}
+
+
+def _side_effect_free(e):
+    """no call other than pure builtins / str methods, no walrus, no await / yield"""
+    for x in ast.walk(e):
+        if isinstance(x, (ast.NamedExpr, ast.Await, ast.Yield, ast.YieldFrom, ast.Lambda)):
+            return False
+        if isinstance(x, ast.Call):
+            f = _txt(x.func)
+            if f in PURE_CALLS or f in ('type', 'id', 'getattr', 'hasattr'):
+                continue
+            if isinstance(x.func, ast.Attribute) and x.func.attr in PURE_STR_METHODS:
+                continue
+            return False
+    return True
+
+
+def _known_type(e, returns):
+    """'bool' | 'int' | 'float' | None : type an expression certainly has"""
+    if isinstance(e, ast.Name):
+        return returns.get(('param', e.id))
+    if isinstance(e, ast.Attribute) and isinstance(e.value, ast.Name) and e.value.id == 'self':
+        return returns.get(('field', e.attr))
+    if isinstance(e, ast.Constant):
+        return 'bool' if isinstance(e.value, bool) else 'int' if isinstance(e.value, int) else 'float' if isinstance(e.value, float) else None
+    if isinstance(e, (ast.Compare, ast.BoolOp)) or (isinstance(e, ast.UnaryOp) and isinstance(e.op, ast.Not)):
+        if isinstance(e, ast.BoolOp):
+            return 'bool' if all(_known_type(v, returns) == 'bool' for v in e.values) else None
+        return 'bool'
+    if isinstance(e, ast.Call):
+        f = _txt(e.func)
+        if f in ('bool', 'isinstance', 'hasattr', 'callable', 'math.isnan', 'math.isinf', 'math.isfinite'):
+            return 'bool'
+        if f in ('int', 'len', 'math.floor', 'math.ceil', 'zlib.crc32', 'ord', 'hash', 'id'):
+            return 'int'
+        if f in ('float', 'math.sqrt', 'math.log', 'math.exp', 'math.pow', 'math.erf', 'math.log1p', 'math.fabs'):
+            return 'float'
+        if f == 'abs' and len(e.args) == 1:
+            return _known_type(e.args[0], returns)
+        if isinstance(e.func, ast.Attribute) and e.func.attr == 'random' and not e.args:
+            return 'float'
+        if isinstance(e.func, ast.Attribute):
+            r = returns.get(e.func.attr)
+            if r in ('bool', 'int', 'float'):
+                return r
+    if isinstance(e, ast.BinOp):
+        if isinstance(e.op, ast.Div):
+            return 'float'
+        a, b = _known_type(e.left, returns), _known_type(e.right, returns)
+        if isinstance(e.op, (ast.Add, ast.Sub, ast.Mult)):
+            if 'float' in (a, b) and a in ('int', 'float') and b in ('int', 'float'):
+                return 'float'
+            if a == b == 'int':
+                return 'int'
+    if isinstance(e, ast.UnaryOp) and isinstance(e.op, (ast.USub, ast.UAdd)):
+        return _known_type(e.operand, returns)
+    return None
+
+
+def strip_noops(trees, base, log):
+    """logging calls and assert statements with side-effect-free arguments are dropped; `bool(e)` / `int(e)` / `float(e)` around an
+    expression that certainly has that type is e.  (Assertions are treated as comments: python -O semantics.)"""
+    # return annotations by method name (only when every definition of the name agrees)
+    returns, clash = {}, set()
+    for tree in trees.values():
+        for fn in ast.walk(tree):
+            if isinstance(fn, (ast.FunctionDef, ast.AsyncFunctionDef)) and fn.returns is not None:
+                r = _txt(fn.returns)
+                if returns.setdefault(fn.name, r) != r:
+                    clash.add(fn.name)
+    returns = {k: v for k, v in returns.items() if k not in clash}
+    counts = {'log': 0, 'assert': 0, 'conv': 0}
+    # class-level field annotations `_n: int` (inherited along the bases)
+    own, bases_of = {}, {}
+    for tree in trees.values():
+        for c in tree.body:
+            if isinstance(c, ast.ClassDef):
+                own[c.name] = {m.target.id: _txt(m.annotation) for m in c.body if isinstance(m, ast.AnnAssign) and isinstance(m.target, ast.Name)
+                               and _txt(m.annotation) in ('bool', 'int', 'float')}
+                bases_of[c.name] = [b.id for b in c.bases if isinstance(b, ast.Name)]
+    field_types = {}
+
+    def collect(c, seen=()):
+        out = {}
+        for b in bases_of.get(c, []):
+            if b not in seen:
+                out.update(collect(b, seen + (c,)))
+        out.update(own.get(c, {}))
+        return out
+    for c in own:
+        field_types[c] = collect(c)
+
+    class Conv(ast.NodeTransformer):
+        def __init__(self, env):
+            self.env = env
+
+        def visit_Call(self, node):
+            self.generic_visit(node)
+            f = _txt(node.func)
+            if f in ('bool', 'int', 'float') and len(node.args) == 1 and not node.keywords and _known_type(node.args[0], self.env) == f:
+                counts['conv'] += 1
+                return node.args[0]
+            return node
+
+        def visit_Compare(self, node):
+            self.generic_visit(node)
+            # a literal on the left of a single ordering comparison: `0 < x`  ->  `x > 0`
+            flip = {ast.Lt: ast.Gt, ast.LtE: ast.GtE, ast.Gt: ast.Lt, ast.GtE: ast.LtE}
+            if len(node.ops) == 1 and type(node.ops[0]) in flip and isinstance(node.left, ast.Constant) and not isinstance(node.comparators[0], ast.Constant):
+                return ast.copy_location(ast.Compare(left=node.comparators[0], ops=[flip[type(node.ops[0])]()], comparators=[node.left]), node)
+            return node
+
+    def block(stmts, known_calls):
+        out = []
+        for st in stmts:
+            for field in ('body', 'orelse', 'finalbody'):
+                v = getattr(st, field, None)
+                if isinstance(v, list) and v and isinstance(v[0], ast.stmt) and not isinstance(st, (ast.FunctionDef, ast.AsyncFunctionDef, ast.ClassDef)):
+                    setattr(st, field, block(v, known_calls) or ([ast.copy_location(ast.Pass(), st)] if field == 'body' else []))
+            if isinstance(st, ast.Try):
+                for h in st.handlers:
+                    h.body = block(h.body, known_calls) or [ast.copy_location(ast.Pass(), st)]
+            if isinstance(st, ast.Expr) and isinstance(st.value, ast.Call) and isinstance(st.value.func, ast.Attribute) \
+                    and st.value.func.attr in LOG_METHODS and _txt(st.value.func.value) in ('logger', 'logging', 'log', '_logger', 'LOGGER') \
+                    and all(_side_effect_free(a) for a in list(st.value.args) + [k.value for k in st.value.keywords]) \
+                    and _txt(st.value) not in known_calls:
+                counts['log'] += 1
+                continue
+            if isinstance(st, ast.Assert) and _side_effect_free(st.test) and (st.msg is None or _side_effect_free(st.msg)):
+                counts['assert'] += 1
+                continue
+            out.append(st)
+        return out
+    for mname, tree in trees.items():
+        b = base.get(mname) or {'funcs': {}, 'classes': {}}
+        for n in tree.body:
+            fns = []
+            if isinstance(n, (ast.FunctionDef, ast.AsyncFunctionDef)):
+                fns = [(n, None)]
+            elif isinstance(n, ast.ClassDef):
+                fns = [(m, n.name) for m in n.body if isinstance(m, (ast.FunctionDef, ast.AsyncFunctionDef))]
+            for fn, cname in fns:
+                # logging calls that the reference tree already has in this function stay (rules may mention them)
+                known = set(base.get('__logcalls__', {}).get(f'{mname}:{cname}.{fn.name}' if cname else f'{mname}:{fn.name}', []))
+                fn.body = block(fn.body, known) or [ast.copy_location(ast.Pass(), fn)]
+                env = dict(returns)
+                for a in fn.args.posonlyargs + fn.args.args + fn.args.kwonlyargs:
+                    if a.annotation is not None and _txt(a.annotation) in ('bool', 'int', 'float') and not any(
+                            isinstance(x, ast.Name) and x.id == a.arg and isinstance(x.ctx, ast.Store) for x in _walk_shallow(fn)):
+                        env[('param', a.arg)] = _txt(a.annotation)
+                if cname:
+                    for (fname, ftype) in field_types.get(cname, {}).items():
+                        env[('field', fname)] = ftype
+                Conv(env).visit(fn)
+    if any(counts.values()):
+        log.append(f'N6 no-ops removed: {counts["log"]} logging call(s), {counts["assert"]} assert(s), {counts["conv"]} redundant bool/int/float conversion(s)')
+
+
 # =================================================================================================== driver
 def run(trees, baseline=None):
     """trees: module name -> ast.Module (modified in place); returns the log of rewrites"""
@@ -1537,9 +1849,13 @@ def run(trees, baseline=None):
     log = []
     undo_renames(trees, base, log)
     match_to_if(trees, log)
+    OBSERVERS.clear()
+    OBSERVERS.update(observer_methods(trees))
+    strip_noops(trees, base, log)
     fold_constants(trees, base, log)
     inline_helpers(trees, base, log)
     propagate_locals(trees, base, log)
+    strip_noops(trees, base, log)                 # conversions exposed by the propagation
     for t in trees.values():
         ast.fix_missing_locations(t)
     return log
